@@ -131,10 +131,59 @@ class Interp:
         self._memo = {}
         self._stack = set()
         self.trusted_self = trusted_self
-        self.globals_cls = globals_cls or {}
+        self.globals_cls = dict(globals_cls or {})
+        self._add_constant_tables()
         self._containers = None
         self.extra_elems: dict = {}  # container name -> element class contributed by callees
         self.alterations: list = []  # (call, stmt): a client value rewritten by something other than the sink's escaping
+
+    def _add_constant_tables(self):
+        """module-level dicts/tuples whose values are literals (never mutated in the module) are data the client does not control:
+        TABLE[key] is classified from the literal values (str -> CONST, int -> INT, tuple of those -> element-wise)"""
+        mod = getattr(self.fn, "_module", None)
+        tree = getattr(mod, "tree", None)
+        if tree is None:
+            return
+
+        def lit(v):
+            if isinstance(v, ast.Constant):
+                if isinstance(v.value, bool) or v.value is None or isinstance(v.value, str):
+                    return CONST
+                if isinstance(v.value, int):
+                    return INT
+                return CONST
+            if isinstance(v, ast.Tuple) and v.elts:
+                parts = [lit(x) for x in v.elts]
+                return ("tuple", tuple(parts)) if all(p is not None for p in parts) else None
+            return None
+
+        mutated = set()
+        for n in ast.walk(tree):
+            if isinstance(n, ast.Subscript) and isinstance(n.value, ast.Name) and isinstance(n.ctx, (ast.Store, ast.Del)):
+                mutated.add(n.value.id)
+            if isinstance(n, ast.Call) and isinstance(n.func, ast.Attribute) and isinstance(n.func.value, ast.Name) and n.func.attr in ("update", "setdefault", "pop", "clear", "append", "extend", "insert", "__setitem__"):
+                mutated.add(n.func.value.id)
+            if isinstance(n, ast.Global):
+                mutated.update(n.names)
+        for st in tree.body:
+            if isinstance(st, ast.Assign) and len(st.targets) == 1 and isinstance(st.targets[0], ast.Name):
+                name = st.targets[0].id
+                if name in self.globals_cls or name in mutated:
+                    continue
+                vals = None
+                if isinstance(st.value, ast.Dict) and st.value.values:
+                    vals = st.value.values
+                elif isinstance(st.value, (ast.Tuple, ast.List)) and st.value.elts and all(isinstance(x, ast.Tuple) for x in st.value.elts):
+                    vals = st.value.elts
+                if not vals:
+                    continue
+                cls_ = [lit(v) for v in vals]
+                if any(c is None for c in cls_):
+                    continue
+                res = cls_[0]
+                same = all(c == res for c in cls_)
+                if same:
+                    self.globals_cls[name] = ("list", res)
 
     # ---- containers: flow-insensitive element classes -----------------
     def container_elems(self, name: str):
@@ -206,6 +255,8 @@ class Interp:
                             v = self.cls(s.value, s)
                             if isinstance(s.value, (ast.Tuple, ast.List)) and i < len(s.value.elts):
                                 return self.cls(s.value.elts[i], s)
+                            if isinstance(v, tuple) and v[0] == "tuple" and i < len(v[1]):
+                                return v[1][i]
                             return elem(v)
             return UNKNOWN
         if isinstance(s, ast.AugAssign):
@@ -257,6 +308,15 @@ class Interp:
         if isinstance(e, ast.BinOp):
             if isinstance(e.op, ast.Mod) and isinstance(e.left, (ast.Constant, ast.JoinedStr)) and isinstance(getattr(e.left, "value", ""), str):
                 return self.percent(e, stmt)
+            if isinstance(e.op, ast.Mod):
+                # TEMPLATES[key] % value  /  TEMPLATES.get(key) % value  with a module-level table of constant templates
+                tmpls = self._template_table(e.left)
+                if tmpls:
+                    res = None
+                    for t in tmpls:
+                        fake = ast.copy_location(ast.BinOp(left=ast.copy_location(ast.Constant(value=t), e.left), op=ast.Mod(), right=e.right), e)
+                        res = join(res, self.percent(fake, stmt))
+                    return res
             if isinstance(e.op, ast.Add):
                 return self._concat([e.left, e.right], stmt)
             l, r = self.cls(e.left, stmt), self.cls(e.right, stmt)
@@ -475,6 +535,35 @@ class Interp:
                 self.holes.append(Hole(part.value, cl, "quoted" if state else "bare", conv, stmt, good, why))
                 ok = ok and good
         return FRAG if ok else RAW
+
+    def _template_table(self, left):
+        """the constant str values of a module-level dict that `left` indexes (D[k] / D.get(k)), else None"""
+        base = None
+        if isinstance(left, ast.Subscript) and isinstance(left.value, ast.Name):
+            base = left.value.id
+        elif isinstance(left, ast.Call) and isinstance(left.func, ast.Attribute) and left.func.attr == "get" and isinstance(left.func.value, ast.Name) and len(left.args) == 1:
+            base = left.func.value.id
+        if base is None:
+            return None
+        mod = getattr(self.fn, "_module", None)
+        tree = getattr(mod, "tree", None)
+        if tree is None:
+            return None
+        # not shadowed by a local binding
+        if any(isinstance(n, ast.Name) and n.id == base and isinstance(n.ctx, ast.Store) for n in ast.walk(self.fn)):
+            return None
+        for st in tree.body:
+            if isinstance(st, ast.Assign) and len(st.targets) == 1 and isinstance(st.targets[0], ast.Name) and st.targets[0].id == base and isinstance(st.value, ast.Dict):
+                vals = st.value.values
+                if vals and all(isinstance(v, ast.Constant) and isinstance(v.value, str) for v in vals):
+                    # the table must not be mutated anywhere in the module
+                    for n in ast.walk(tree):
+                        if isinstance(n, ast.Subscript) and isinstance(n.value, ast.Name) and n.value.id == base and isinstance(n.ctx, (ast.Store, ast.Del)):
+                            return None
+                        if isinstance(n, ast.Call) and isinstance(n.func, ast.Attribute) and isinstance(n.func.value, ast.Name) and n.func.value.id == base and n.func.attr in ("update", "setdefault", "pop", "clear", "__setitem__"):
+                            return None
+                    return [v.value for v in vals]
+        return None
 
     def percent(self, e: ast.BinOp, stmt):
         import re
